@@ -217,6 +217,10 @@ def run_check(tier, seed):
                 run.add_violation("oracle", {"stream": "pipe_equality", "what": "panic", "described": desc, "format": f, "stderr": e.decode("utf-8", "replace")[-400:]}, True)
         same = (d[0] == 0) == (p[0] == 0) and (d[0] != 0 or mask_now(d[1].decode("utf-8", "replace"), now) == mask_now(p[1].decode("utf-8", "replace"), now))
         if not same:
+            # dirty objects carry the wall clock (possibly formatted): only a difference that is stable counts
+            differs, (d, p) = really_differs(jobs[2 * i], jobs[2 * i + 1])
+            same = not differs
+        if not same:
             run.add_violation("oracle", {"stream": "pipe_equality", "what": "rendering obtained through the pipe differs from the direct rendering", "described": desc, "format": f,
                                          "direct": [d[0], d[1].decode("utf-8", "replace")[:300], d[2].decode("utf-8", "replace")[-200:]],
                                          "piped": [p[0], p[1].decode("utf-8", "replace")[:300], p[2].decode("utf-8", "replace")[-200:]],
